@@ -817,3 +817,10 @@ Proof. vm_compute. split; [intros H; destruct (H eq_refl) as (_ & _ & _ & H1); d
 Example wf06_codec_example :
   wf06 (L [A 1; A (2 ^ 40); A (2 ^ 20); L (A 300 :: List.repeat (A 7) 31); A 1; A 2; A 3; A 7; A 7; A 66]).
 Proof. vm_compute. intros _. repeat split. Qed.
+
+(** ---- the judge: "agree" implies "no violation" ---- *)
+Theorem judge06_agree_not_violates : forall inp obs,
+  wf06 inp -> judged_agree (judge06 inp obs) = true -> judged_violates (judge06 inp obs) = false.
+Proof.
+  intros inp obs H. unfold judge06. apply judge_det_agree_not_violates. apply mon06_silent. exact H.
+Qed.
